@@ -9,13 +9,17 @@ package batch
 //@ ghost addCalls int
 //@ ghost lastAdditional int
 //@ ghost cutCalls int
+//@ ghost lastAnchorVersion uint64
+//@ ghost lastReaddVersion uint64
+//@ ghost lastHandler protocol.OperationHandler
+//@ spec handlerOf(v protocol.Version) protocol.OperationHandler
 //
 //@ spec writerOK(r *Writer) bool { r != nil && r.batchCutter != nil && r.protocol != nil && r.context != nil && r.logger != nil }
 //@ spec qopsNonNil(ops []*operation.QueuedOperation) bool { forall q int :: 0 <= q && q < len(ops) ==> ops[q] != nil }
 //
 //@ iface batchCutter.Add
-//@   modifies addCalls
-//@   ensures addCalls == old(addCalls) + 1
+//@   modifies addCalls, lastReaddVersion
+//@   ensures addCalls == old(addCalls) + 1 && lastReaddVersion == protocolVersion
 //@ iface batchCutter.Cut
 //@   results res, err
 //@   modifies cutCalls
@@ -24,13 +28,14 @@ package batch
 //@ iface Context.Anchor
 //@   ensures result != nil
 //@ iface AnchorWriter.WriteAnchor
-//@   modifies anchorsWritten
-//@   ensures (result == nil ==> anchorsWritten == old(anchorsWritten) + 1) && (result != nil ==> anchorsWritten == old(anchorsWritten))
+//@   modifies anchorsWritten, lastAnchorVersion
+//@   ensures (result == nil ==> anchorsWritten == old(anchorsWritten) + 1 && lastAnchorVersion == protocolVersion) && (result != nil ==> anchorsWritten == old(anchorsWritten))
 //@ iface api/protocol.Version.OperationHandler
-//@   ensures result != nil
+//@   ensures result != nil && result == handlerOf(this)
 //@ iface api/protocol.OperationHandler.PrepareTxnFiles
 //@   results info, err
-//@   modifies lastAdditional
+//@   modifies lastAdditional, lastHandler
+//@   ensures lastHandler == this
 //@   ensures err == nil ==> info != nil && lastAdditional == len(info.AdditionalOperations) && qopsNonNil(info.AdditionalOperations)
 //
 //@ extern sync/atomic.LoadUint32
@@ -39,8 +44,10 @@ package batch
 //
 //@ func (*Writer).Add
 //@   requires writerOK(r)
-//@   ensures addCalls <= old(addCalls) + 1
-//@   modifies addCalls
+//@   ensures addCalls <= old(addCalls) + 1 && addCalls >= old(addCalls)
+//@   ensures addCalls == old(addCalls) + 1 ==> lastReaddVersion == protocolVersion
+//@   ensures addCalls == old(addCalls) ==> lastReaddVersion == old(lastReaddVersion)
+//@   modifies addCalls, lastReaddVersion
 //
 // anchor written before anything is re-queued; every deferred operation is re-added, with the batch's version;
 // a failure before the anchor is written re-queues nothing
@@ -48,9 +55,14 @@ package batch
 //@   requires writerOK(r) && qopsNonNil(ops)
 //@   loop 1
 //@     invariant anchorsWritten == old(anchorsWritten) + 1 && addCalls <= old(addCalls) + _k
+//@     invariant addCalls > old(addCalls) ==> lastReaddVersion == protocolVersion
+//@     invariant lastAnchorVersion == protocolVersion && lastHandler == handlerOf(verOf(r.protocol, protocolVersion))
 //@   ensures result == nil ==> anchorsWritten == old(anchorsWritten) + 1 && addCalls <= old(addCalls) + lastAdditional
 //@   ensures result != nil ==> anchorsWritten == old(anchorsWritten) && addCalls == old(addCalls)
-//@   modifies anchorsWritten, addCalls, lastAdditional
+//   C20 glue: the batch is prepared by the handler of the version it was queued under, anchored and re-queued under it
+//@   ensures result == nil ==> lastAnchorVersion == protocolVersion && lastHandler == handlerOf(verOf(r.protocol, protocolVersion))
+//@   ensures addCalls > old(addCalls) ==> lastReaddVersion == protocolVersion
+//@   modifies anchorsWritten, addCalls, lastAdditional, lastAnchorVersion, lastReaddVersion, lastHandler
 //
 // nack on any processing error, ack only after the anchor was written
 //@ func (*Writer).cutAndProcess
@@ -61,4 +73,4 @@ package batch
 //@   ensures err == nil && n > 0 ==> acks == old(acks) + 1 && nacks == old(nacks) && anchorsWritten == old(anchorsWritten) + 1
 //@   ensures err == nil && n == 0 ==> acks == old(acks) && nacks == old(nacks) && anchorsWritten == old(anchorsWritten)
 //@   ensures acks + nacks <= old(acks) + old(nacks) + 1
-//@   modifies anchorsWritten, addCalls, lastAdditional, acks, nacks, cutCalls
+//@   modifies anchorsWritten, addCalls, lastAdditional, acks, nacks, cutCalls, lastAnchorVersion, lastReaddVersion, lastHandler
